@@ -40,8 +40,12 @@ def check(run):
     for si, seed in enumerate(seeds):
         ref = ref_values(seed)
         refsigs[seed] = [crypto.ed25519_ref_sign(seed, m) for m in msgs[:2 if quick else 3]]
-        for path in paths:
-            cur_rep, cur = "priv_bytes", seed
+        pub_ref = {"pub_bytes": seed, "pub_hex": seed.hex()}        # the same 32 bytes read as a public key
+        for path in sorted(paths, key=lambda p: rr.random()):
+            public_start = path[0] == "start:public"
+            cur_rep, cur = ("pub_bytes", seed) if public_start else ("priv_bytes", seed)
+            ref_now = pub_ref if public_start else ref
+            path = path[1:]
             ok = True
             for step, fn in enumerate(path):
                 try:
@@ -80,23 +84,40 @@ def check(run):
                         cur_rep, cur = "pub_bytes", c.keyfiles_to_bytes(cur)[1]
                     run.evaluations += 1
                 except Exception as e:  # noqa: BLE001
+                    if public_start and step == 0 and isinstance(e, ValueError):
+                        ok = None          # these 32 bytes do not encode a curve point: not a public key at all
+                        break
                     viol(f"conversion {fn} raised {type(e).__name__} on a valid key", path=list(path), step=step, seed=seed.hex())
                     ok = False
                     break
                 # value at this node vs RFC 8032 for the seed
-                if cur_rep in ref:
-                    if cur != ref[cur_rep] or type(cur) is not type(ref[cur_rep]):
+                if public_start and cur_rep == "pub_obj":
+                    try:
+                        good_pub = c.PublicKey.to_bytes(cur) == seed
+                    except Exception:  # noqa: BLE001
+                        good_pub = False
+                    if not good_pub:
+                        viol(f"public key object after {fn} does not hold the bytes it was built from", path=list(path), step=step, seed=seed.hex())
+                        ok = False
+                        break
+                    continue
+                if cur_rep in ref_now:
+                    if cur != ref_now[cur_rep] or type(cur) is not type(ref_now[cur_rep]):
                         viol(f"value at {cur_rep} after {fn} is not the one RFC 8032 defines for the seed", path=list(path), step=step, seed=seed.hex(), got=repr(cur)[:200])
                         ok = False
                         break
                 elif cur_rep == "priv_obj":
-                    if c.PrivateKey.to_bytes(cur) != seed or any(cur.sign(m) != s for m, s in zip(msgs, refsigs[seed])):
+                    try:
+                        good_priv = c.PrivateKey.to_bytes(cur) == seed and all(cur.sign(m) == s for m, s in zip(msgs, refsigs[seed]))
+                    except Exception:  # noqa: BLE001 - not even a private key object
+                        good_priv = False
+                    if not good_priv:
                         viol(f"private key object after {fn} does not sign like RFC 8032 for the seed", path=list(path), step=step, seed=seed.hex())
                         ok = False
                         break
                 elif cur_rep == "pub_obj":
-                    good = c.PublicKey.to_bytes(cur) == ref["pub_bytes"]
                     try:
+                        good = c.PublicKey.to_bytes(cur) == ref["pub_bytes"]
                         cur.verify(refsigs[seed][0], msgs[0])
                     except Exception:  # noqa: BLE001
                         good = False
